@@ -427,6 +427,23 @@ def gen_pipe(rng):
     return dict(stages=stages, tick=tick, arrivals=arrivals, mode=rng.choice(["pre", "in"]))
 
 
+def enum_bursts():
+    """Exhaustive small scope (thorough tier): an item in service completes at t=10 while 1-3 items arrive
+    at t=10 through every combination of hop counts 0..3; Server with 1 or 2 slots; both injection modes."""
+    import itertools
+    out = []
+    for n in (1, 2, 3):
+        for hops in itertools.product(range(4), repeat=n):
+            for limit in (1, 2):
+                for mode in ("pre", "in"):
+                    arrivals = [dict(t=0, hops=2, item=dict(id=0, prio=0, dl=1000, flow=0), balk=False)]
+                    for i, h in enumerate(hops):
+                        arrivals.append(dict(t=10, hops=h, item=dict(id=i + 1, prio=i % 2, dl=1000, flow=i % 2), balk=False))
+                    out.append(dict(stages=[dict(policy=dict(kind="fifo", cap=None), worker="server", limit=limit, svc=[10, 5])],
+                                    tick=1, arrivals=arrivals, mode=mode))
+    return out
+
+
 def _norm_case(c):
     """Corpus files may use the single-stage layout of the first version."""
     if "stages" in c:
@@ -786,7 +803,7 @@ def encode_pipe(c, obs):
     return term(out)
 
 
-def oracle_stage(st, steps, offered_in, sink_out, reneged_out, last):
+def oracle_stage(st, steps, offered_in, sink_out, reneged_out, last, tick=1):
     """C08 on one resource's run: ledger per offered item, in-service bound, no stranding."""
     fails = []
     kind = st["worker"]
@@ -810,6 +827,11 @@ def oracle_stage(st, steps, offered_in, sink_out, reneged_out, last):
         elif lb[0] == "setlimit":
             if prev_lim is not None and lb[1] > prev_lim and depth > 0:
                 raised_while_waiting = True
+            if kind == "shift":
+                tt = s["t"] // tick
+                want = next((cap for a, b, cap in sorted(st["shifts"]) if a <= tt < b), st["default_capacity"])
+                if lb[1] != want:
+                    fails.append(dict(clause="the shift capacity in force is the one the schedule defines", step=idx, t=tt, got=lb[1], expected=want))
         else:
             ev = lb[2]
             if ev[0] == "poll":
@@ -904,7 +926,7 @@ def oracle_pipe(c, obs):
             out_ids = [s["label"][2]["id"] for s in all_steps[i + 1] if s["label"][0] == "arrive"]
         else:
             out_ids = [g[1] for g in obs["sink"]]
-        f, done = oracle_stage(st, steps, offered, out_ids, [g[1] for g in obs["reneged"]], n == 1)
+        f, done = oracle_stage(st, steps, offered, out_ids, [g[1] for g in obs["reneged"]], n == 1, c["tick"])
         for x in f:
             x["stage"] = i
         fails += f
@@ -1333,6 +1355,8 @@ def oracle_ind(c, obs):
                 for o in e["out"]:
                     if o[0] == "retry" and o[1] not in waiting:
                         fails.append(dict(clause="pool re-emits an item that is not waiting", step=idx))
+            if c["cap"] > 0 and len(q) > c["cap"]:
+                fails.append(dict(clause="a queue never holds more than its capacity (pool waiting line)", step=idx, q=q))
             if act > c["size"] or avail + act != c["size"] or avail < 0:
                 fails.append(dict(clause="work in service never exceeds the concurrency limit (pool units)", step=idx, snap=e["snap"]))
             if act != len(service) or comp != len(done) or rej != len(rejected):
@@ -1489,10 +1513,30 @@ class _Sharded:
 def run(ctx):
     ctx.prove(COQ_FILES, allowed_axioms=(), trusted_base=TRUSTED)
     stats = []
-    for fam, n in ((FAMILIES[0], ctx.n(350, 6000)), (FAMILIES[1], ctx.n(350, 5000)), (FAMILIES[2], ctx.n(300, 5000))):
+    for fam, n in ((FAMILIES[0], ctx.n(300, 6000)), (FAMILIES[1], ctx.n(300, 5000)), (FAMILIES[2], ctx.n(250, 5000))):
         stats.append(run_family(_Sharded(ctx, 400), fam, n))
         ctx.log(f"family {fam.name}: {stats[-1]['cases']} cases, mismatches={stats[-1]['mismatches']}, "
                 f"oracle failures={stats[-1]['oracle_failures']} (known {stats[-1]['known']})")
+    if not ctx.quick:
+        todo = enum_bursts()
+        it = iter(todo)
+        fam = Family("pipeline", IMPORTS, "ok_pipelines", PIPE_T, lambda rng: next(it), impl_pipe, encode_pipe, oracle_pipe,
+                     nontrivial=nontrivial_pipe, attribute=attribute_pipe, parallel=True, describe=lambda c: "enumerated-burst")
+        fam.name = "pipeline_enum"
+        stats.append(run_family(_Sharded(ctx, 400), fam, len(todo)))
+        ctx.log(f"family pipeline_enum (exhaustive bursts): {stats[-1]['cases']} cases, mismatches={stats[-1]['mismatches']}, "
+                f"oracle failures={stats[-1]['oracle_failures']} (known {stats[-1]['known']})")
+    ctx.assumptions += [
+        "the engine's choice of the next event is NOT modelled: the world models let any pending event of the component fire next "
+        "(a superset of the engine's schedules); every recorded real run is checked to be a schedule of the world model",
+        "clauses refuted on the faithful model (known findings): accepted work never discarded (Server over-poll), no stranding with "
+        ">= 2 slots, in-service bound for unguarded workers (ShiftedServer), no stranding after a capacity increase, FIFO waiting "
+        "line of PooledCycleResource; partial theorems: c08_no_stranding_partial / _single_slot, c08_concurrency_bound (Server)",
+        "RED early-drop decisions, CoDel drop counts, balking draws and RED/CoDel float arithmetic are inputs of the model (oracle "
+        "streams); theorems hold for every stream; ShiftSchedule.capacity_at is checked by the oracle only",
+        "WeightedFairQueue has capacity/conservation theorems and per-flow FIFO in the oracle, no credit-discipline theorem; "
+        "AdaptiveLIFO/RED/CoDel have capacity/conservation theorems, their order is checked by the oracle only",
+    ]
     merge_stats(ctx, stats, "policy: random push/pop sequences over 7 policy kinds with small capacities, deadlines around the clock, "
                             "4 flows; pipeline: bursts at equal nanoseconds through relay chains of 0-4 hops into a Server with "
                             "concurrency 1-3, service times from {0,1,5,10} ns, arrivals scheduled before run() or created inside it; "
@@ -1501,7 +1545,7 @@ def run(ctx):
 
 
 def replay(data):
-    fam = {f.name: f for f in FAMILIES}[data["detail"]["family"]]
+    fam = {f.name: f for f in FAMILIES}[data["detail"]["family"].replace("pipeline_enum", "pipeline")]
     c = data["detail"]["case"]
     obs = fam.impl(c)
     fails = fam.oracle(c, obs)
